@@ -246,13 +246,17 @@ pub trait Layout {
         if self.shape().iter().any(|d| d == 0) {
             return 0;
         }
-        let max_offset: usize = self
+        // Use saturating arithmetic so that a layout whose maximum offset
+        // does not fit in a `usize` requires more data than any buffer can
+        // hold, rather than wrapping around to a small length.
+        let max_offset = self
             .shape()
             .iter()
             .zip(self.strides().iter())
-            .map(|(size, stride)| (size - 1) * stride)
-            .sum();
-        max_offset + 1
+            .fold(0usize, |max_offset, (size, stride)| {
+                max_offset.saturating_add((size - 1).saturating_mul(stride))
+            });
+        max_offset.saturating_add(1)
     }
 
     /// Return a new layout formed by reshaping this one to `shape`.
@@ -275,6 +279,15 @@ pub trait Layout {
         }
         Ok(layout)
     }
+}
+
+/// Return the product of `sizes`, or `usize::MAX` if it overflows.
+///
+/// Element counts and strides are computed with this rather than a plain
+/// product so that shapes which are too large to represent are never mistaken
+/// for small ones.
+fn saturating_product(sizes: impl Iterator<Item = usize>) -> usize {
+    sizes.fold(1usize, |product, size| product.saturating_mul(size))
 }
 
 /// A layout which upholds guarantees on returned storage offsets.
@@ -346,7 +359,7 @@ impl<const N: usize> Layout for NdLayout<N> {
     }
 
     fn len(&self) -> usize {
-        self.shape.iter().product()
+        saturating_product(self.shape.iter())
     }
 
     #[inline]
@@ -563,7 +576,7 @@ impl<const N: usize> NdLayout<N> {
     fn contiguous_strides(shape: [usize; N]) -> [usize; N] {
         let mut strides = [0; N];
         for i in 0..N {
-            strides[i] = shape[i + 1..].iter().product();
+            strides[i] = saturating_product(shape[i + 1..].iter().copied());
         }
         strides
     }
@@ -623,7 +636,7 @@ impl Layout for DynLayout {
 
     /// Return the number of elements in the tensor shape described by this layout.
     fn len(&self) -> usize {
-        self.shape().iter().product()
+        saturating_product(self.shape().iter().copied())
     }
 
     #[inline]
@@ -715,7 +728,7 @@ impl DynLayout {
         let mut stride = 1;
         for i in (0..shape.len()).rev() {
             strides_and_shape[shape.len() + i] = stride;
-            stride *= shape[i];
+            stride = stride.saturating_mul(shape[i]);
         }
         strides_and_shape
     }
